@@ -1,7 +1,7 @@
 (* C04 -- property theorems only.  Proofs live in C04/Proofs*.v. *)
 From Coq Require Import NArith Arith List Bool.
 From DV Require Import Base.Outcome Base.Bytes Base.Lex Base.Names Base.PName C04.Gen C04.Model
-  C04.ProofsLabel C04.ProofsIter C04.ProofsRepr C04.ProofsData C04.ProofsParsed C04.ProofsEmbed C04.ProofsOrder C04.ProofsCompressed C04.ProofsTyped.
+  C04.ProofsLabel C04.ProofsIter C04.ProofsRepr C04.ProofsData C04.ProofsParsed C04.ProofsEmbed C04.ProofsOrder C04.ProofsCompressed C04.ProofsTyped C04.ProofsSuffix.
 Import ListNotations.
 Local Open Scope N_scope.
 
@@ -104,6 +104,22 @@ Print Assumptions C04_parsed_parsed_ops.
 Theorem C04_parsed_any_ops : forall m pos lim p rb b, parse_ref m pos lim = Ok p -> lim <= mlen m -> wf_bytes m -> valid_abs b -> denotes rb (b ++ [[]]) -> exists a, pname_labels m p = Ok (a, true) /\ valid_abs a /\ m_name_eq (NParsed m p) rb = Ok (name_eqb a b) /\ m_name_eq rb (NParsed m p) = Ok (name_eqb b a) /\ m_name_cmp (NParsed m p) rb = Ok (name_cmp a b) /\ m_name_cmp rb (NParsed m p) = Ok (name_cmp b a) /\ m_name_hash (NParsed m p) = Ok (name_hash_feed a).
 Proof. exact parsed_any_ops. Qed.
 Print Assumptions C04_parsed_any_ops.
+
+Theorem C04_parent_step : forall m p l ls, plabels m (pn_pos p) (pn_len p) (l :: ls) -> flat_ok m p (l :: ls) -> (1 <= length l <= 63)%nat -> ls <> [] -> exists q, parent_gen true m p = Ok (Some q) /\ plabels m (pn_pos q) (pn_len q) ls /\ flat_ok m q ls /\ pn_compressed q = pn_compressed p.
+Proof. exact parent_step. Qed.
+Print Assumptions C04_parent_step.
+
+Theorem C04_parsed_suffix_denotes : forall m pos lim p, parse_ref m pos lim = Ok p -> lim <= mlen m -> wf_bytes m -> parent_keeps_compressed_flag = true -> forall k, exists n q, parent_n k m p = Ok q /\ valid_abs n /\ denotes (NParsed m q) (n ++ [[]]).
+Proof. exact parsed_suffix_denotes. Qed.
+Print Assumptions C04_parsed_suffix_denotes.
+
+Theorem C04_parsed_suffix_ops : forall m pos lim p k rb b, parse_ref m pos lim = Ok p -> lim <= mlen m -> wf_bytes m -> parent_keeps_compressed_flag = true -> valid_abs b -> denotes rb (b ++ [[]]) -> exists n q, parent_n k m p = Ok q /\ valid_abs n /\ m_name_eq (NParsed m q) rb = Ok (name_eqb n b) /\ m_name_cmp (NParsed m q) rb = Ok (name_cmp n b) /\ m_composed_cmp (NParsed m q) rb = Ok (lex_cmp (wire_abs n) (wire_abs b)) /\ m_lc_composed_cmp (NParsed m q) rb = Ok (lex_cmp (wire_abs (canon n)) (wire_abs (canon b))) /\ m_name_hash (NParsed m q) = Ok (name_hash_feed n).
+Proof. exact parsed_suffix_ops. Qed.
+Print Assumptions C04_parsed_suffix_ops.
+
+Theorem C04_parent_clearing_flag_refuted : let m := [0;0;0;0;0;0;0;0;0;0;0;0; 3;99;111;109;0; 1;98;192;12; 1;97;192;17; 0;0;0;0;0] in let com := NFlat (wire_abs [[99;111;109]]) in exists p p1 q, parse_ref m 21 (mlen m) = Ok p /\ parent_gen false m p = Ok (Some p1) /\ parent_gen false m p1 = Ok (Some q) /\ pn_compressed q = false /\ m_name_eq (NParsed m q) com = Ok false /\ m_name_cmp (NParsed m q) com = Ok Eq /\ m_name_hash (NParsed m q) = m_name_hash com /\ (exists q', parent_gen true m p1 = Ok (Some q') /\ m_name_eq (NParsed m q') com = Ok true).
+Proof. exact parent_clearing_flag_refuted. Qed.
+Print Assumptions C04_parent_clearing_flag_refuted.
 
 Theorem C04_charstr_cmp_eq_iff : forall a b, m_charstr_cmp a b = Eq <-> m_charstr_eq a b = true.
 Proof. exact charstr_cmp_eq_iff. Qed.
